@@ -515,8 +515,64 @@ func f7CompoundAssign() []BashCase {
 	return cases
 }
 
+// F8: one textual operation stands before a construct and again inside it, where it runs several times
+// (loop heads without init / post statement, loop bodies, functions called twice): every execution computes
+// it from the values of that moment.
+func f8RepeatedOperations() []BashCase {
+	cases := []BashCase{}
+	n := vr("n")
+	ops := []struct {
+		name string
+		e    Expr // bool operation over n that is true for n < 3
+		v    Expr // an int operation over n
+	}{
+		{"compare", cmp("<", n, il(3)), bin("+", n, il(1))},
+		{"compare-sum", cmp("<", bin("+", n, il(1)), il(4)), bin("*", n, il(2))},
+		{"logic", logic("&&", cmp("<", n, il(3)), cmp(">=", n, il(0))), bin("-", il(10), n)},
+		{"not", Not{cmp(">=", n, il(3))}, bin("%", bin("+", n, il(7)), il(5))},
+	}
+	for _, o := range ops {
+		for _, first := range []string{"print", "panic-guard", "define", "if"} {
+			var pre []Stmt
+			switch first {
+			case "print":
+				pre = []Stmt{pr(o.e, o.v)}
+			case "panic-guard":
+				pre = []Stmt{ifs(Not{Group{o.e}}, Panic{sl("never")}), pr(o.v)}
+			case "define":
+				pre = []Stmt{def("was", o.e), def("num", o.v), pr(vr("was"), vr("num"))}
+			default:
+				pre = []Stmt{ifs(o.e, pr(sl("yes"), o.v))}
+			}
+			mk := func(kind string) []Stmt {
+				st := append([]Stmt{def("n", il(0))}, pre...)
+				switch kind {
+				case "for-cond":
+					st = append(st, For{Kind: ForCond, Cond: o.e, Body: []Stmt{pr(sl("body"), n, o.v), IncDec{"n", true}}})
+				case "for-ever":
+					st = append(st, For{Kind: ForEver, Body: []Stmt{ifs(Not{Group{o.e}}, Break{}), pr(sl("body"), n, o.v), IncDec{"n", true}}})
+				case "for-three-empty-clauses":
+					st = append(st, For{Kind: ForThree, Cond: o.e, Body: []Stmt{pr(sl("body"), n, o.v), IncDec{"n", true}}})
+				case "for-three":
+					st = append(st, For{Kind: ForThree, Init: def("k", il(0)), Cond: cmp("<", vr("k"), il(4)), Post: IncDec{"k", true}, Body: []Stmt{pr(sl("body"), o.e, o.v), IncDec{"n", true}}})
+				case "range":
+					st = append(st, For{Kind: ForRange, RangeIdx: "k", RangeVal: "", Over: sl("abcd"), Body: []Stmt{pr(sl("body"), o.e, o.v), IncDec{"n", true}}})
+				}
+				return append(st, pr(sl("after"), n, o.e, o.v))
+			}
+			for _, kind := range []string{"for-cond", "for-ever", "for-three-empty-clauses", "for-three", "range"} {
+				body := mk(kind)
+				cases = append(cases, BashCase{Key: fmt.Sprintf("F8/%s/%s/%s/top", o.name, first, kind), Prog: SingleFile(body)})
+				cases = append(cases, BashCase{Key: fmt.Sprintf("F8/%s/%s/%s/func", o.name, first, kind), Prog: SingleFile([]Stmt{fn("run", nil, nil, body...), callS("run"), callS("run")})})
+			}
+		}
+	}
+	return cases
+}
+
 func c01Families(c *Check) []BashCase {
 	cases := []BashCase{}
+	cases = append(cases, f8RepeatedOperations()...)
 	cases = append(cases, f1OperatorChains(2, c.Thorough())...)
 	cases = append(cases, f1Unary()...)
 	cases = append(cases, f2ArithmeticEdges()...)
